@@ -554,19 +554,42 @@ Notation has_e := (has_e A en).
 Notation near := (near A en e_tol).
 Notation outlier := (outlier n_sigma).
 
-Fixpoint go_e (mu v : Qc) (first : bool) (rp suf : list A) : list A :=
+(* structural form: rp = reversed prefix still to visit, suf = decided part of the list, kept = the
+   kept_confs list of the code *)
+Fixpoint go_k (mu v : Qc) (rp suf kept : list A) : list A :=
   match rp with
   | [] => suf
   | x :: rp' =>
       match en x with
-      | None => go_e mu v first rp' (x :: suf)
-      | Some e =>
-          if outlier mu v e then go_e mu v false rp' suf
-          else if first then go_e mu v false rp' (x :: suf)
-          else if existsb (near e) (rev rp' ++ suf) then go_e mu v false rp' suf
-          else go_e mu v false rp' (x :: suf)
+      | None => go_k mu v rp' (x :: suf) kept
+      | Some e => if outlier mu v e || existsb (near e) kept then go_k mu v rp' suf kept
+                  else go_k mu v rp' (x :: suf) (kept ++ [x])
       end
   end.
+
+(* ... and without the auxiliary list: the kept conformers are exactly the members of suf with an
+   energy, and `near` is false on the others *)
+Fixpoint go_e (mu v : Qc) (rp suf : list A) : list A :=
+  match rp with
+  | [] => suf
+  | x :: rp' =>
+      match en x with
+      | None => go_e mu v rp' (x :: suf)
+      | Some e => if outlier mu v e || existsb (near e) suf then go_e mu v rp' suf
+                  else go_e mu v rp' (x :: suf)
+      end
+  end.
+
+Lemma go_k_go_e mu v (rp : list A) : forall suf kept,
+  (forall e, existsb (near e) kept = existsb (near e) suf) ->
+  go_k mu v rp suf kept = go_e mu v rp suf.
+Proof.
+  induction rp as [|x rp IH]; intros suf kept H; [reflexivity|].
+  cbn [go_k go_e]. destruct (en x) as [e|] eqn:Ex.
+  - rewrite (H e). destruct (outlier mu v e || existsb (near e) suf); [apply IH; exact H|].
+    apply IH. intro e'. rewrite existsb_app. cbn [existsb]. rewrite orb_false_r, (H e'). apply orb_comm.
+  - apply IH. intro e'. cbn [existsb]. unfold Model.near at 2. rewrite Ex. cbn [orb]. apply H.
+Qed.
 
 Lemma idxs_from_app (p : list A) x : forall k,
   idxs_with_energy_from A en k (p ++ [x]) =
@@ -578,20 +601,20 @@ Proof.
     destruct (has_e y); reflexivity.
 Qed.
 
-Lemma e_loop_spec (mu v : Qc) (pre : list A) : forall suf first,
-  e_loop A en e_tol n_sigma mu v first (rev (idxs_with_energy A en pre)) (pre ++ suf) =
-  Ok (go_e mu v first (rev pre) suf).
+Lemma e_loop_spec (mu v : Qc) (pre : list A) : forall suf kept,
+  e_loop A en e_tol n_sigma mu v (rev (idxs_with_energy A en pre)) (pre ++ suf) kept =
+  Ok (go_k mu v (rev pre) suf kept).
 Proof.
-  induction pre as [|x p IH] using rev_ind; intros suf first.
+  induction pre as [|x p IH] using rev_ind; intros suf kept.
   - reflexivity.
   - unfold idxs_with_energy in *. rewrite idxs_from_app. cbn [plus].
-    rewrite (rev_app_distr p [x]). cbn [rev app go_e]. rewrite <- app_assoc. cbn [app].
+    rewrite (rev_app_distr p [x]). cbn [rev app go_k]. rewrite <- app_assoc. cbn [app].
     unfold Model.has_e. destruct (en x) as [e|] eqn:Ex.
     + rewrite rev_app_distr. cbn [rev app e_loop]. unfold e_step.
-      rewrite nth_error_mid, remove_nth_mid, Ex. rewrite rev_involutive.
-      destruct (outlier mu v e); [apply IH|].
-      destruct first; [apply IH|].
-      destruct (existsb (near e) (p ++ suf)); apply IH.
+      rewrite nth_error_mid, remove_nth_mid, Ex.
+      destruct (outlier mu v e); cbn [orb]; [apply IH|].
+      destruct (existsb (near e) kept); [apply IH|].
+      replace (p ++ x :: suf) with (p ++ x :: suf) by reflexivity. apply IH.
     + rewrite app_nil_r. apply IH.
 Qed.
 
@@ -608,65 +631,56 @@ Definition e_v (l : list A) := var_lb (energies_of A en l).
 
 Lemma prune_on_energy_spec (l : list A) :
   prune_on_energy A en e_tol n_sigma l =
-  Ok (if length (energies_of A en l) <? 2 then l else go_e (e_mu l) (e_v l) true (rev l) []).
+  Ok (if length (energies_of A en l) <? 2 then l else go_e (e_mu l) (e_v l) (rev l) []).
 Proof.
   unfold prune_on_energy, idxs_with_energy. rewrite idxs_len.
   destruct (length (energies_of A en l) <? 2); [reflexivity|].
-  pose proof (e_loop_spec (e_mu l) (e_v l) l [] true) as H. rewrite app_nil_r in H. exact H.
+  pose proof (e_loop_spec (e_mu l) (e_v l) l [] []) as H. rewrite app_nil_r in H.
+  unfold idxs_with_energy, e_mu, e_v in H. rewrite H. rewrite go_k_go_e; [reflexivity|]. intro e. reflexivity.
 Qed.
 
 (* ----- what the loop keeps ----- *)
-Lemma go_e_suffix mu v (rp : list A) : forall first suf, exists k, go_e mu v first rp suf = k ++ suf.
+Lemma go_e_suffix mu v (rp : list A) : forall suf, exists k, go_e mu v rp suf = k ++ suf.
 Proof.
-  induction rp as [|x rp IH]; intros first suf; [exists []; reflexivity|].
+  induction rp as [|x rp IH]; intro suf; [exists []; reflexivity|].
   cbn [go_e].
-  assert (Hcons : forall f, exists k, go_e mu v f rp (x :: suf) = k ++ suf).
-  { intro f. destruct (IH f (x :: suf)) as [k Hk]. exists (k ++ [x]). rewrite Hk, <- app_assoc. reflexivity. }
-  destruct (en x) as [e|]; [|apply Hcons].
-  destruct (outlier mu v e); [apply IH|].
-  destruct first; [apply Hcons|].
-  destruct (existsb (near e) (rev rp ++ suf)); [apply IH|apply Hcons].
+  assert (Hcons : exists k, go_e mu v rp (x :: suf) = k ++ suf).
+  { destruct (IH (x :: suf)) as [k Hk]. exists (k ++ [x]). rewrite Hk, <- app_assoc. reflexivity. }
+  destruct (en x) as [e|]; [|exact Hcons].
+  destruct (outlier mu v e || existsb (near e) suf); [apply IH|exact Hcons].
 Qed.
 
-Lemma go_e_incl mu v (rp : list A) : forall first suf, incl (go_e mu v first rp suf) (rev rp ++ suf).
+Lemma go_e_incl mu v (rp : list A) : forall suf, incl (go_e mu v rp suf) (rev rp ++ suf).
 Proof.
-  induction rp as [|x rp IH]; intros first suf; [apply incl_refl|].
+  induction rp as [|x rp IH]; intro suf; [apply incl_refl|].
   cbn [go_e rev]. rewrite <- app_assoc. cbn [app].
-  assert (Hdrop : forall f, incl (go_e mu v f rp suf) (rev rp ++ x :: suf)).
-  { intros f y Hy. apply IH in Hy. apply in_app_or in Hy. apply in_or_app.
+  assert (Hdrop : incl (go_e mu v rp suf) (rev rp ++ x :: suf)).
+  { intros y Hy. apply IH in Hy. apply in_app_or in Hy. apply in_or_app.
     destruct Hy; [left; assumption|right; right; assumption]. }
   destruct (en x) as [e|]; [|apply IH].
-  destruct (outlier mu v e); [apply Hdrop|].
-  destruct first; [apply IH|].
-  destruct (existsb (near e) (rev rp ++ suf)); [apply Hdrop|apply IH].
+  destruct (outlier mu v e || existsb (near e) suf); [exact Hdrop|apply IH].
 Qed.
 
-Lemma go_e_FOP (P : A -> A -> Prop) mu v (rp : list A) : forall first suf,
-  ForallOrdPairs P (rev rp ++ suf) -> ForallOrdPairs P (go_e mu v first rp suf).
+Lemma go_e_FOP (P : A -> A -> Prop) mu v (rp : list A) : forall suf,
+  ForallOrdPairs P (rev rp ++ suf) -> ForallOrdPairs P (go_e mu v rp suf).
 Proof.
-  induction rp as [|x rp IH]; intros first suf H; [exact H|].
+  induction rp as [|x rp IH]; intros suf H; [exact H|].
   cbn [go_e]. cbn [rev] in H. rewrite <- app_assoc in H. cbn [app] in H.
   pose proof (FOP_remove_mid P _ _ _ H) as Hd.
   destruct (en x) as [e|]; [|apply IH; exact H].
-  destruct (outlier mu v e); [apply IH; exact Hd|].
-  destruct first; [apply IH; exact H|].
-  destruct (existsb (near e) (rev rp ++ suf)); [apply IH; exact Hd|apply IH; exact H].
+  destruct (outlier mu v e || existsb (near e) suf); [apply IH; exact Hd|apply IH; exact H].
 Qed.
 
 (* conformers without an energy are never removed *)
-Lemma go_e_keeps_none mu v (rp : list A) : forall first suf y,
-  In y (rev rp ++ suf) -> en y = None -> In y (go_e mu v first rp suf).
+Lemma go_e_keeps_none mu v (rp : list A) : forall suf y,
+  In y (rev rp ++ suf) -> en y = None -> In y (go_e mu v rp suf).
 Proof.
-  induction rp as [|x rp IH]; intros first suf y Hy Ey; [exact Hy|].
+  induction rp as [|x rp IH]; intros suf y Hy Ey; [exact Hy|].
   cbn [go_e]. cbn [rev] in Hy. rewrite <- app_assoc in Hy. cbn [app] in Hy.
-  assert (Hy' : en x <> None -> In y (rev rp ++ suf)).
-  { intro Hx. apply in_app_or in Hy. apply in_or_app. destruct Hy as [Hy|[Hy|Hy]]; [left; exact Hy| |right; exact Hy].
-    subst y. contradiction. }
   destruct (en x) as [e|] eqn:Ex; [|apply IH; assumption].
-  assert (Hne : Some e <> None) by discriminate.
-  destruct (outlier mu v e); [apply IH; auto|].
-  destruct first; [apply IH; assumption|].
-  destruct (existsb (near e) (rev rp ++ suf)); apply IH; auto.
+  destruct (outlier mu v e || existsb (near e) suf); [|apply IH; assumption].
+  apply IH; [|exact Ey]. apply in_app_or in Hy. apply in_or_app.
+  destruct Hy as [Hy|[Hy|Hy]]; [left; exact Hy| |right; exact Hy]. subst y. congruence.
 Qed.
 
 (* two energies at least e_tol apart *)
@@ -688,146 +702,77 @@ Proof. intros Ex e e' E1. congruence. Qed.
 Lemma apart_none_r x y : en y = None -> apart x y.
 Proof. intros Ey e e' _ E2. congruence. Qed.
 
-(* pairwise separation of the retained energies.  Invariant: while `first` is still true nothing
-   with an energy has been decided yet. *)
-Lemma go_e_separated mu v (rp : list A) : forall first suf,
-  (first = true -> Forall (fun y => en y = None) suf) ->
-  ForallOrdPairs apart suf -> ForallOrdPairs apart (go_e mu v first rp suf).
+(* pairwise separation of the retained energies *)
+Lemma go_e_separated mu v (rp : list A) : forall suf,
+  ForallOrdPairs apart suf -> ForallOrdPairs apart (go_e mu v rp suf).
 Proof.
-  induction rp as [|x rp IH]; intros first suf Hinv H; [exact H|].
+  induction rp as [|x rp IH]; intros suf H; [exact H|].
   cbn [go_e]. destruct (en x) as [e|] eqn:Ex.
-  - destruct (outlier mu v e); [apply IH; [discriminate|exact H]|].
-    destruct first.
-    + apply IH; [discriminate|]. constructor; [|exact H].
-      eapply Forall_impl; [|exact (Hinv eq_refl)]. intros a Ha. apply apart_none_r. exact Ha.
-    + destruct (existsb (near e) (rev rp ++ suf)) eqn:E; [apply IH; [discriminate|exact H]|].
-      apply IH; [discriminate|]. constructor; [|exact H].
-      apply existsb_false_forall in E. apply Forall_app in E. destruct E as [_ E].
-      eapply Forall_impl; [|exact E]. intros a Ha. eapply near_false_apart; eassumption.
-  - apply IH.
-    + intro Hf. constructor; [exact Ex|exact (Hinv Hf)].
-    + constructor; [|exact H]. apply Forall_forall. intros a _. apply apart_none_l. exact Ex.
+  - destruct (outlier mu v e || existsb (near e) suf) eqn:E; [apply IH; exact H|].
+    apply orb_false_iff in E. destruct E as [_ E]. apply IH. constructor; [|exact H].
+    apply existsb_false_forall in E. eapply Forall_impl; [|exact E].
+    intros a Ha. eapply near_false_apart; eassumption.
+  - apply IH. constructor; [|exact H]. apply Forall_forall. intros a _. apply apart_none_l. exact Ex.
 Qed.
 
-(* every conformer is linked, through steps of less than e_tol between conformers of the set, to a
-   retained conformer or to an outlier (this is what the loop really guarantees about "keeping"
-   low energies) *)
 Definition nearP (x y : A) : Prop :=
   exists e e', en x = Some e /\ en y = Some e' /\ (Qcabs (e - e') < e_tol)%Qc.
-Inductive linked (L : list A) : A -> A -> Prop :=
-| linked_refl x : linked L x x
-| linked_step x y z : In y L -> nearP x y -> linked L y z -> linked L x z.
-
 Definition is_outlier mu v (y : A) : Prop := exists e, en y = Some e /\ outlier mu v e = true.
+Definition non_outlier mu v (y : A) : Prop := exists e, en y = Some e /\ outlier mu v e = false.
 
-Lemma go_e_linked (L : list A) mu v (rp : list A) : forall first suf x,
-  incl (rev rp ++ suf) L -> In x (rev rp ++ suf) ->
-  exists y, linked L x y /\ (In y (go_e mu v first rp suf) \/ (In y L /\ is_outlier mu v y)).
+(* every conformer that is not an outlier is itself retained or within e_tol of a retained one *)
+Lemma go_e_keeps_near mu v (rp : list A) : forall suf x,
+  In x (rev rp) -> non_outlier mu v x ->
+  exists y, In y (go_e mu v rp suf) /\ (x = y \/ nearP x y).
 Proof.
-  induction rp as [|c rp IH]; intros first suf x HL Hx.
-  - exists x. split; [constructor|left; exact Hx].
-  - cbn [rev] in Hx, HL. rewrite <- app_assoc in Hx, HL. cbn [app] in Hx, HL. cbn [go_e].
-    assert (HL' : incl (rev rp ++ suf) L).
-    { intros a Ha. apply HL. apply in_app_or in Ha. apply in_or_app.
-      destruct Ha; [left; assumption|right; right; assumption]. }
-    assert (HcL : In c L) by (apply HL; apply in_or_app; right; left; reflexivity).
-    assert (Hcase : x = c \/ In x (rev rp ++ suf)).
-    { apply in_app_or in Hx. destruct Hx as [Hx|[Hx|Hx]].
-      - right. apply in_or_app. left. exact Hx.
-      - left. symmetry. exact Hx.
-      - right. apply in_or_app. right. exact Hx. }
-    assert (Hkeep : forall f, exists y, linked L x y /\
-              (In y (go_e mu v f rp (c :: suf)) \/ (In y L /\ is_outlier mu v y))).
-    { intro f. apply IH; assumption. }
-    destruct (en c) as [e|] eqn:Ec; [|apply Hkeep].
-    destruct (outlier mu v e) eqn:Eo.
-    { destruct Hcase as [->|Hin]; [|apply IH; assumption].
-      exists c. split; [constructor|right]. split; [exact HcL|]. exists e. split; assumption. }
-    destruct first; [apply Hkeep|].
-    destruct (existsb (near e) (rev rp ++ suf)) eqn:En; [|apply Hkeep].
-    destruct Hcase as [->|Hin]; [|apply IH; assumption].
-    apply existsb_exists in En. destruct En as [o [Ho Hn]].
-    destruct (IH false suf o HL' Ho) as [y [Hl Hy]].
-    exists y. split; [|exact Hy]. eapply linked_step; [apply HL'; exact Ho| |exact Hl].
-    unfold Model.near in Hn. destruct (en o) as [e'|] eqn:Eo'; [|discriminate].
-    exists e, e'. split; [exact Ec|]. split; [exact Eo'|]. apply Qcltb_iff. exact Hn.
+  induction rp as [|c rp IH]; intros suf x Hx Hno; [destruct Hx|].
+  cbn [rev] in Hx. apply in_app_or in Hx. cbn [go_e].
+  destruct Hx as [Hx|[<-|[]]].
+  - destruct (en c) as [e|]; [|apply IH; assumption].
+    destruct (outlier mu v e || existsb (near e) suf); apply IH; assumption.
+  - destruct Hno as [e [Ec Eo]]. rewrite Ec, Eo. cbn [orb].
+    destruct (existsb (near e) suf) eqn:En.
+    + apply existsb_exists in En. destruct En as [o [Ho Hn]].
+      destruct (go_e_suffix mu v rp suf) as [k Hk]. exists o. split.
+      * rewrite Hk. apply in_or_app. right. exact Ho.
+      * right. unfold Model.near in Hn. destruct (en o) as [e'|] eqn:Eo'; [|discriminate].
+        exists e, e'. split; [exact Ec|]. split; [exact Eo'|]. apply Qcltb_iff. exact Hn.
+    + destruct (go_e_suffix mu v rp (c :: suf)) as [k Hk]. exists c. split; [|left; reflexivity].
+      rewrite Hk. apply in_or_app. right. left. reflexivity.
+Qed.
+
+(* what is deleted is an outlier or within e_tol of a retained conformer *)
+Lemma go_e_deleted mu v (rp : list A) : forall suf x,
+  In x (rev rp) -> ~ In x (go_e mu v rp suf) ->
+  is_outlier mu v x \/ exists y, In y (go_e mu v rp suf) /\ nearP x y.
+Proof.
+  intros suf x Hx Hnot.
+  destruct (en x) as [e|] eqn:Ex.
+  - destruct (outlier mu v e) eqn:Eo; [left; exists e; split; assumption|right].
+    destruct (go_e_keeps_near mu v rp suf x Hx) as [y [Hy [<-|Hn]]]; [exists e; split; assumption|contradiction|].
+    exists y. split; assumption.
+  - exfalso. apply Hnot. apply go_e_keeps_none; [apply in_or_app; left; exact Hx|exact Ex].
 Qed.
 
 (* a separated list without outliers is left unchanged *)
-Lemma go_e_fix mu v (p : list A) : forall suf first,
+Lemma go_e_fix mu v (p : list A) : forall suf,
   ForallOrdPairs apart (p ++ suf) ->
   (forall x e, In x p -> en x = Some e -> outlier mu v e = false) ->
-  go_e mu v first (rev p) suf = p ++ suf.
+  go_e mu v (rev p) suf = p ++ suf.
 Proof.
-  induction p as [|x p IH] using rev_ind; intros suf first HF Hno; [reflexivity|].
+  induction p as [|x p IH] using rev_ind; intros suf HF Hno; [reflexivity|].
   rewrite rev_app_distr. cbn [rev app go_e]. rewrite <- app_assoc in HF |- *. cbn [app] in HF |- *.
   assert (Hno' : forall y e, In y p -> en y = Some e -> outlier mu v e = false).
   { intros y e Hy. apply Hno. apply in_or_app. left. exact Hy. }
   destruct (en x) as [e|] eqn:Ex; [|apply IH; assumption].
   assert (Hxin : In x (p ++ [x])) by (apply in_or_app; right; left; reflexivity).
-  rewrite (Hno x e Hxin Ex).
-  destruct first; [apply IH; assumption|].
-  rewrite rev_involutive.
-  assert (Hq : existsb (near e) (p ++ suf) = false).
-  { apply existsb_false_forall. destruct (FOP_mid _ _ _ _ HF) as [H1 H2].
-    assert (Hap : forall y, In y (p ++ suf) -> apart x y).
-    { intros y Hy. apply in_app_or in Hy. destruct Hy as [Hy|Hy].
-      - apply apart_sym. rewrite Forall_forall in H1. apply H1. exact Hy.
-      - rewrite Forall_forall in H2. apply H2. exact Hy. }
-    apply Forall_forall. intros y Hy. unfold Model.near. destruct (en y) as [e'|] eqn:Ey; [|reflexivity].
-    apply Qcltb_false_iff. apply (Hap y Hy); assumption. }
+  rewrite (Hno x e Hxin Ex). cbn [orb].
+  assert (Hq : existsb (near e) suf = false).
+  { apply existsb_false_forall. destruct (FOP_mid _ _ _ _ HF) as [_ H2].
+    eapply Forall_impl; [|exact H2]. intros y Hy. unfold Model.near.
+    destruct (en y) as [e'|] eqn:Ey; [|reflexivity]. apply Qcltb_false_iff. apply Hy; assumption. }
   rewrite Hq. apply IH; assumption.
 Qed.
-
-(* non-emptiness when outliers are not within e_tol of non-outliers *)
-Definition non_outlier mu v (y : A) : Prop := exists e, en y = Some e /\ outlier mu v e = false.
-
-Lemma go_e_keeps_non_outlier mu v (rp : list A) : forall first suf,
-  (forall x y, In x (rev rp ++ suf) -> In y (rev rp ++ suf) ->
-               non_outlier mu v x -> is_outlier mu v y -> apart x y) ->
-  (exists x, In x (rev rp ++ suf) /\ non_outlier mu v x) ->
-  exists y, In y (go_e mu v first rp suf) /\ non_outlier mu v y.
-Proof.
-  induction rp as [|c rp IH]; intros first suf Hfar Hex; [exact Hex|].
-  cbn [go_e].
-  assert (Hsub : forall a, In a (rev rp ++ suf) -> In a (rev (c :: rp) ++ suf)).
-  { intros a Ha. cbn [rev]. rewrite <- app_assoc. cbn [app]. apply in_app_or in Ha. apply in_or_app.
-    destruct Ha; [left; assumption|right; right; assumption]. }
-  assert (Hc : In c (rev (c :: rp) ++ suf)).
-  { cbn [rev]. rewrite <- app_assoc. apply in_or_app. right. left. reflexivity. }
-  assert (Hfar' : forall x y, In x (rev rp ++ suf) -> In y (rev rp ++ suf) ->
-                              non_outlier mu v x -> is_outlier mu v y -> apart x y).
-  { intros x y Hx Hy. apply Hfar; apply Hsub; assumption. }
-  assert (Hkeep : forall f, exists y, In y (go_e mu v f rp (c :: suf)) /\ non_outlier mu v y).
-  { intro f. apply IH.
-    - intros x y Hx Hy. apply Hfar; cbn [rev]; rewrite <- app_assoc; assumption.
-    - destruct Hex as [x [Hx Hn]]. exists x. split; [|exact Hn].
-      cbn [rev] in Hx. rewrite <- app_assoc in Hx. exact Hx. }
-  (* the witness is c or lies in rev rp ++ suf *)
-  destruct Hex as [x [Hx Hn]].
-  assert (Hcase : x = c \/ In x (rev rp ++ suf)).
-  { cbn [rev] in Hx. rewrite <- app_assoc in Hx. cbn [app] in Hx.
-    apply in_app_or in Hx. destruct Hx as [Hx|[Hx|Hx]].
-    - right. apply in_or_app. left. exact Hx.
-    - left. symmetry. exact Hx.
-    - right. apply in_or_app. right. exact Hx. }
-  destruct (en c) as [e|] eqn:Ec; [|apply Hkeep].
-  destruct (outlier mu v e) eqn:Eo.
-  { apply IH; [exact Hfar'|]. destruct Hcase as [->|Hin]; [|exists x; split; assumption].
-    exfalso. destruct Hn as [e2 [E2 O2]]. rewrite Ec in E2. injection E2 as <-. congruence. }
-  destruct first; [apply Hkeep|].
-  destruct (existsb (near e) (rev rp ++ suf)) eqn:En; [|apply Hkeep].
-  apply IH; [exact Hfar'|].
-  apply existsb_exists in En. destruct En as [o [Ho Hno]].
-  exists o. split; [exact Ho|].
-  unfold Model.near in Hno. destruct (en o) as [e'|] eqn:Eo'; [|discriminate].
-  exists e'. split; [exact Eo'|].
-  destruct (outlier mu v e') eqn:Eo2; [|reflexivity]. exfalso.
-  assert (Hap : apart c o).
-  { apply Hfar; [exact Hc|apply Hsub; exact Ho|exists e; split; assumption|exists e'; split; assumption]. }
-  specialize (Hap e e' Ec Eo'). apply Qcltb_iff in Hno. exact (Qclt_not_le _ _ Hno Hap).
-Qed.
-
 
 (* ----- packaged facts about prune_on_energy ----- *)
 Lemma energies_in (l : list A) e : In e (energies_of A en l) <-> exists x, In x l /\ en x = Some e.
@@ -857,7 +802,7 @@ Proof.
   - eexists. split; [reflexivity|]. split; [|split; [|split]].
     + intros y Hy. apply go_e_incl in Hy. rewrite app_nil_r, rev_involutive in Hy. exact Hy.
     + intros y Hy Ey. apply go_e_keeps_none; [|exact Ey]. rewrite app_nil_r, rev_involutive. exact Hy.
-    + apply go_e_separated; [intros _; constructor|constructor].
+    + apply go_e_separated. constructor.
     + intros P H. apply go_e_FOP. rewrite app_nil_r, rev_involutive. exact H.
 Qed.
 
@@ -874,7 +819,7 @@ Lemma prune_on_energy_fixpoint (r : list A) :
   prune_on_energy A en e_tol n_sigma r = Ok r.
 Proof.
   intros HF Hno. rewrite prune_on_energy_spec. destruct (length (energies_of A en r) <? 2); [reflexivity|].
-  rewrite (go_e_fix (e_mu r) (e_v r) r [] true); [rewrite app_nil_r; reflexivity| |exact Hno].
+  rewrite (go_e_fix (e_mu r) (e_v r) r []); [rewrite app_nil_r; reflexivity| |exact Hno].
   rewrite app_nil_r. exact HF.
 Qed.
 
@@ -888,73 +833,42 @@ Proof.
   exists e. split; assumption.
 Qed.
 
-Definition outliers_apart (l : list A) : Prop :=
-  forall x y, In x l -> In y l -> non_outlier (e_mu l) (e_v l) x -> is_outlier (e_mu l) (e_v l) y -> apart x y.
-
-Lemma prune_on_energy_nonempty (l r : list A) :
-  prune_on_energy A en e_tol n_sigma l = Ok r -> l <> [] -> (Q2Qc 1 <= n_sigma)%Qc ->
-  outliers_apart l -> r <> [].
-Proof.
-  rewrite prune_on_energy_spec. intros H Hne Hn Hfar. injection H as <-.
-  destruct (length (energies_of A en l) <? 2) eqn:E; [exact Hne|].
-  apply Nat.ltb_ge in E.
-  assert (Hes : energies_of A en l <> []) by (destruct (energies_of A en l); [cbn in E; lia|discriminate]).
-  destruct (exists_non_outlier l Hes Hn) as [x [Hx Hno]].
-  destruct (go_e_keeps_non_outlier (e_mu l) (e_v l) (rev l) true []) as [y [Hy _]].
-  - rewrite app_nil_r, rev_involutive. exact Hfar.
-  - exists x. split; [|exact Hno]. rewrite app_nil_r, rev_involutive. exact Hx.
-  - intro Hnil. rewrite Hnil in Hy. destruct Hy.
-Qed.
-
-Lemma linked_in L x y : linked L x y -> In x L -> In y L.
-Proof. induction 1 as [x|x y z Hy Hn Hl IH]; intro Hx; [exact Hx|apply IH; exact Hy]. Qed.
-
-Definition near_transitive (L : list A) : Prop :=
-  forall a b c, In a L -> In b L -> In c L -> nearP a b -> nearP b c -> a = c \/ nearP a c.
-
-Lemma linked_collapse L x y : near_transitive L -> linked L x y -> In x L -> x = y \/ nearP x y.
-Proof.
-  intros HT Hl. induction Hl as [x|x y z Hy Hn Hl IH]; intro Hx; [left; reflexivity|].
-  destruct (IH Hy) as [<-|Hyz]; [right; exact Hn|].
-  apply (HT x y z); try assumption. eapply linked_in; [exact Hl|exact Hy].
-Qed.
-
-Lemma prune_on_energy_linked (l r : list A) x :
-  prune_on_energy A en e_tol n_sigma l = Ok r -> In x l ->
-  exists y, linked l x y /\ (In y r \/ (In y l /\ is_outlier (e_mu l) (e_v l) y)).
-Proof.
-  rewrite prune_on_energy_spec. intros H Hx. injection H as <-.
-  destruct (length (energies_of A en l) <? 2).
-  - exists x. split; [constructor|left; exact Hx].
-  - apply go_e_linked; rewrite app_nil_r.
-    + intros a Ha. rewrite rev_involutive in Ha. exact Ha.
-    + rewrite rev_involutive. exact Hx.
-Qed.
-
 Lemma prune_on_energy_keeps_near (l r : list A) x :
   prune_on_energy A en e_tol n_sigma l = Ok r -> In x l -> non_outlier (e_mu l) (e_v l) x ->
-  outliers_apart l -> near_transitive l ->
   exists y, In y r /\ (x = y \/ nearP x y).
 Proof.
-  intros H Hx Hno Hfar HT. destruct (prune_on_energy_linked l r x H Hx) as [y [Hl Hy]].
-  pose proof (linked_collapse l x y HT Hl Hx) as Hc.
-  destruct Hy as [Hy|[Hyl Hyo]]; [exists y; split; assumption|]. exfalso.
-  destruct Hno as [e [Ex Eo]]. destruct Hyo as [e' [Ey Eo']].
-  destruct Hc as [<-|Hn].
-  - rewrite Ex in Ey. injection Ey as <-. congruence.
-  - assert (Hap : apart x y).
-    { apply Hfar; [exact Hx|exact Hyl|exists e; split; assumption|exists e'; split; assumption]. }
-    destruct Hn as [e1 [e2 [E1 [E2 Hlt]]]]. specialize (Hap e1 e2 E1 E2).
-    exact (Qclt_not_le _ _ Hlt Hap).
+  rewrite prune_on_energy_spec. intros H Hx Hno. injection H as <-.
+  destruct (length (energies_of A en l) <? 2).
+  - exists x. split; [exact Hx|left; reflexivity].
+  - apply go_e_keeps_near; [rewrite rev_involutive; exact Hx|exact Hno].
+Qed.
+
+Lemma prune_on_energy_deleted (l r : list A) x :
+  prune_on_energy A en e_tol n_sigma l = Ok r -> In x l -> ~ In x r ->
+  is_outlier (e_mu l) (e_v l) x \/ exists y, In y r /\ nearP x y.
+Proof.
+  rewrite prune_on_energy_spec. intros H Hx Hnot. injection H as <-.
+  destruct (length (energies_of A en l) <? 2); [contradiction|].
+  apply go_e_deleted; [rewrite rev_involutive; exact Hx|exact Hnot].
+Qed.
+
+Lemma prune_on_energy_nonempty (l r : list A) :
+  prune_on_energy A en e_tol n_sigma l = Ok r -> l <> [] -> (Q2Qc 1 <= n_sigma)%Qc -> r <> [].
+Proof.
+  intros H Hne Hn.
+  destruct (energies_of A en l) as [|e0 es] eqn:Ees.
+  - (* no energies at all: nothing is touched *)
+    rewrite prune_on_energy_spec, Ees in H. cbn [length Nat.ltb Nat.leb] in H. injection H as <-. exact Hne.
+  - assert (Hes : energies_of A en l <> []) by (rewrite Ees; discriminate).
+    destruct (exists_non_outlier l Hes Hn) as [x [Hx Hno]].
+    destruct (prune_on_energy_keeps_near l r x H Hx Hno) as [y [Hy _]].
+    intro Hnil. rewrite Hnil in Hy. destruct Hy.
 Qed.
 
 (* the property's sentences, as predicates (used by the *_refuted theorems) *)
 Definition lowest_non_outlier (l : list A) (m : Qc) : Prop :=
   (exists x, In x l /\ en x = Some m /\ outlier (e_mu l) (e_v l) m = false) /\
   (forall y e, In y l -> en y = Some e -> outlier (e_mu l) (e_v l) e = false -> (m <= e)%Qc).
-Definition keeps_near_lowest (l : list A) : Prop :=
-  forall r m, prune_on_energy A en e_tol n_sigma l = Ok r -> lowest_non_outlier l m ->
-  exists y e, In y r /\ en y = Some e /\ (e = m \/ (Qcabs (e - m) < e_tol)%Qc).
 Definition stays_nonempty (l : list A) : Prop :=
   forall r, prune_on_energy A en e_tol n_sigma l = Ok r -> l <> [] -> r <> [].
 Definition idempotent_on (l : list A) : Prop :=
@@ -975,16 +889,23 @@ Definition natoms (m : mol) : nat := length (m_atoms m).
 Definition nsum (f : mol -> nat) (ms : list mol) : nat := list_sum (map f ms).
 Definition zsum (l : list Z) : Z := fold_right Z.add 0%Z l.
 
-Lemma fold_app_concat (ms : list mol) : forall init,
-  fold_left (fun acc m => acc ++ m_atoms m) ms init = init ++ concat (map m_atoms ms).
+(* the accumulator of `sum(..., None)` once it is a plain list: later molecules are appended *)
+Lemma fold_add_list (rest : list mol) : forall l0,
+  fold_left (fun a m => add_atoms At a (m_atoms m)) rest (AList At l0) =
+  AList At (l0 ++ concat (map m_atoms rest)).
 Proof.
-  induction ms as [|m ms IH]; intro init; cbn [fold_left map concat].
+  induction rest as [|m r IH]; intro l0; cbn [fold_left add_atoms map concat].
   - rewrite app_nil_r. reflexivity.
   - rewrite IH, <- app_assoc. reflexivity.
 Qed.
 
 Lemma c_atoms_concat ms : c_atoms At ms = concat (map m_atoms ms).
-Proof. unfold c_atoms. rewrite fold_app_concat. reflexivity. Qed.
+Proof.
+  unfold c_atoms. destruct ms as [|m1 [|m2 r]]; cbn [fold_left add_atoms acc_list map concat].
+  - reflexivity.
+  - rewrite app_nil_r. reflexivity.
+  - rewrite fold_add_list. cbn [acc_list]. rewrite <- app_assoc. reflexivity.
+Qed.
 
 Lemma fold_zadd (f : mol -> Z) (ms : list mol) : forall init,
   fold_left (fun acc m => (acc + f m)%Z) ms init = (init + zsum (map f ms))%Z.
@@ -1039,8 +960,11 @@ Proof.
   intro H. unfold off. rewrite (firstn_S_nth ms k m H), nsum_app. unfold nsum, list_sum. cbn [map fold_right]. lia.
 Qed.
 
+Lemma c_atoms_length ms : length (c_atoms At ms) = nsum natoms ms.
+Proof. rewrite c_atoms_concat. apply length_concat_atoms. Qed.
+
 Lemma off_all ms : off ms (length ms) = length (c_atoms At ms).
-Proof. unfold off. rewrite firstn_all, c_atoms_concat, length_concat_atoms. reflexivity. Qed.
+Proof. unfold off. rewrite firstn_all, c_atoms_length. reflexivity. Qed.
 
 Lemma atom_indexes_spec ms k :
   atom_indexes At ms k =
